@@ -1,3 +1,3 @@
--- This module serves as the root of the `BycycleModel` library.
--- Import modules here that should be built as part of the library.
 import BycycleModel.Basic
+import BycycleModel.Runs
+import BycycleModel.Wire
